@@ -367,6 +367,7 @@ def apply_rw(text: str, rule, rx, repl, mn, log):
 # --------------------------------------------------------------------------------------------------
 
 INLINE = {'names': set(), 'sources': {}}   # set by build_unit(inline=...)
+NEED = {}                                    # helper stubs the always-on rewrites ask for (emitted before `} // verus!`)
 
 
 def _split_top(s: str):
@@ -581,10 +582,12 @@ def parse_kv(parts):
     return kv
 
 
-def build_unit(tmpl_path: str, repo: str, inline=None):
+def build_unit(tmpl_path: str, repo: str, inline=None, pull_consts=None):
     """returns dict(text, map, meta)"""
     INLINE['names'] = set(inline or [])
     INLINE['sources'] = {}
+    NEED.clear()
+    pull_consts = list(pull_consts or [])
     tl = open(tmpl_path).read().split('\n')
     g = Gen()
     meta = dict(unit=None, properties=[], min_verified=1, functions=[], items=[], canaries=[], obligations=[],
@@ -608,6 +611,10 @@ def build_unit(tmpl_path: str, repo: str, inline=None):
         ln = tl[i]
         st = ln.strip()
         if not st.startswith('//@@'):
+            if st.startswith('} // verus!') and NEED.get('slice_to_array'):
+                g.emit('/// std: copying a slice into an array of the same length (R10b; panics on a length mismatch)', 'tmpl', tmpl_path, i + 1)
+                g.emit('#[verifier::external_body]', 'tmpl', tmpl_path, i + 1)
+                g.emit('pub fn __slice_to_array<const N: usize>(s: &[u8]) -> (r: [u8; N]) requires s@.len() == N ensures r@ == s@ { unimplemented!() }', 'tmpl', tmpl_path, i + 1)
             mo = OB_TAG.search(ln)
             ob = None
             if mo:
@@ -615,6 +622,27 @@ def build_unit(tmpl_path: str, repo: str, inline=None):
                 ln = ln[:mo.start()] + ln[mo.end():]
                 meta['obligations'].append(dict(name=ob, where=f'{os.path.basename(tmpl_path)}:{i + 1}', fn=None))
             g.emit(ln, 'tmpl', tmpl_path, i + 1, ob=ob)
+            if pull_consts and st.startswith('verus!') and st.endswith('{'):
+                # R13b: constants the unit does not know (a refactor started using them) are pulled verbatim from the
+                # unit's own source files
+                rels = []
+                for l2 in tl:
+                    mo2 = re.match(r'\s*//@@ (?:fn|item) (\S+) \|', l2)
+                    if mo2 and mo2.group(1) not in rels:
+                        rels.append(mo2.group(1))
+                for cname in pull_consts:
+                    for rel in rels:
+                        try:
+                            src, m = load(rel)
+                            s0, e0 = find_item(src, m, 'const', cname, 0)
+                        except ExtractError:
+                            continue
+                        ctext = src[s0:e0]
+                        ctext = re.sub(r'^\s*(pub(\([^)]*\))?\s+)?const', 'pub const', ctext, count=1)
+                        g.emit(f'// ==== SOURCE {rel}:{line_of(src, s0)} const {cname} (R13b: pulled because the verified text uses it)', 'tmpl', tmpl_path, i + 1)
+                        g.emit(ctext, 'src', rel, line_of(src, s0), fn=None)
+                        meta['rewrites'].append(dict(fn=f'const {cname}', rule='R13b', what=f'const {cname} pulled from {rel}', applied=1))
+                        break
             i += 1
             continue
         d = st[4:].strip()
@@ -746,6 +774,17 @@ def _emit_fn(g, meta, tmpl, rel, src, m, ctx, name, kv, subs):
             e = mm0.index('|', h + 1)
             text = text[:h] + '|_ignored|' + text[e + 1:]
         rwlog.append(dict(rule='R12', what='closure parameter `_` named `_ignored`', applied=len(hits)))
+    # R10b (always on): `let [mut] x: [u8; N] = <slice expr>.try_into().expect(..)|.unwrap();` (copying a slice into an array; the
+    # installed Verus has no specification for the TryFrom<&[T]> for [T; N] blanket path) -> a stub with the std meaning:
+    # panics unless the slice has N elements, result holds the same bytes. The stub is emitted at the end of the unit.
+    def _tryinto(mo):
+        NEED['slice_to_array'] = True
+        new = f"{mo.group(1)}: [u8; {mo.group(2)}] = __slice_to_array::<{{ {mo.group(2)} }}>(&{' '.join(mo.group(3).split())});"
+        return new + '\n' * (mo.group(0).count('\n') - new.count('\n'))
+    text2 = re.sub(r'(let\s+(?:mut\s+)?\w+)\s*:\s*\[u8;\s*([^\]]+)\]\s*=\s*([^;]+?)\s*\.try_into\(\)\s*\.(?:expect\([^;]*?\)|unwrap\(\))\s*;', _tryinto, text, flags=re.S)
+    if text2 != text:
+        text = text2
+        rwlog.append(dict(rule='R10', what='`let x: [u8; N] = s.try_into().expect(..)` -> __slice_to_array::<N>(&s) (assumed std meaning)', applied=1))
     # R10a (always on): `assert_eq!(a, b[, "msg"..])` -> `assert!(a == b)` and `assert_ne!` likewise — the same runtime check (the
     # panic message is dropped); the installed Verus has no specification for core::panicking::assert_failed
     for mac, op in (('assert_eq', '=='), ('assert_ne', '!=')):
